@@ -1,11 +1,13 @@
-(* C01: closed worlds showing (1) that the hypotheses of the C01 theorems are satisfiable by a
-   non-trivial world (a derived layer with an rbind of /dev and a bind import, four mount
-   calls, result ROk, the whole of C01.step_spec true), and (2) that each extra hypothesis of a
-   `_partial` theorem is necessary: without it the corresponding conjunct of C01.step_spec is
-   FALSE of the model (and, the model being the observed behaviour, of layercake). *)
+(* C01: closed worlds and cases showing (1) that the hypotheses of the C01 theorems are
+   satisfiable by non-trivial inputs (fresh and partially mounted states), (2) that the
+   behaviours which refuted the first version of the property (failed rbind, plain bind of
+   /dev, import on the build root, pre-stacked import) are now accepted -- after the repairs of
+   round 2 to the code/model and to the predicate --, and (3) that each remaining extra
+   hypothesis is necessary: without it C01.step_spec is FALSE of the model. *)
 From LC Require Import Lib.Bytes Lib.Lex Lib.Fields Lib.PathM Gen.Consts
   Model.MountInfo Model.FsTree Model.Kernel Model.Layers Cases.Verdict Cases.LC Cases.C01
-  Proofs.MntTraceP Proofs.MntNeededP Proofs.MntOrderP Proofs.MntKernelP Proofs.MntPostP Proofs.C01P.
+  Proofs.MntTraceP Proofs.MntNeededP Proofs.MntOrderP Proofs.MntKernelP Proofs.MntPostP Proofs.C01P
+  Proofs.C01HoldsP.
 Import LC LCS.
 Open Scope N_scope.
 
@@ -15,8 +17,8 @@ Definition ex_cfg : cfgT :=
 Definition ex_env : env := MkEnv false NoFault false false [].
 Definition dirs (l : list string) : fsT := map (fun s => (bs s, Dir)) l.
 Definition nlb : bytes := [nb 10].
-(* a base directory with a root layer "base0" (minimal build directories present) and a
-   derived layer "d1"; /dev and /src exist on the host *)
+(* a base directory with a root layer "base0" and a derived layer "d1" (minimal build
+   directories present in both); /dev and /src exist on the host *)
 Definition base_fs : fsT :=
   dirs ["/"; "/b"; "/b/layers"; "/b/export"; "/dev"; "/src";
         "/b/layers/base0"; "/b/layers/base0/build";
@@ -36,6 +38,18 @@ Definition world (extra : fsT) (basecfg d1cfg : bytes) (ks : kstate) : wobs :=
   MkWO (base_fs ++ extra ++ [(bs "/b/layers/base0/layerconfig", File basecfg);
                              (bs "/b/layers/d1/layerconfig", File d1cfg)]) ks.
 Definition d1 : bytes := bs "d1".
+Definition ks_of (r : kres) : kstate := match r with KOk k => k | KErr => ks0 end.
+
+(* the observed step that agrees with the model, and the one-step case made of it *)
+Definition step_of_model (cfg : cfgT) (w : wobs) (e : env) (cmd : command) (um : users_map) : step :=
+  let r := run e cfg um cmd (world_of w) in
+  let st := snd r in
+  MkStep e cmd um (rclass_of (fst r)) (rev (s_log st)) (MkDelta (map fst (wo_fs w)) (w_fs (s_w st)))
+         (ks_tab (w_ks (s_w st))) (ks_nextid (w_ks (s_w st))) (ks_nextdev (w_ks (s_w st)))
+         (match fst r with Ret (Some ld) => Some (map lobs_of (ld_map ld)) | _ => None end).
+Definition case_of (cfg : cfgT) (w : wobs) (e : env) (cmd : command) : LC.case :=
+  MkCase cfg (wo_fs w) (wo_ks w) [step_of_model cfg w e cmd []].
+Definition hyps_of (c : LC.case) : bool := along (step_hyps (c_cfg c)) (w0 c) (c_steps c).
 
 (* ------------------------------------------------------------------ the hypotheses are satisfiable *)
 Definition cfg_good : bytes :=
@@ -43,107 +57,86 @@ Definition cfg_good : bytes :=
 Definition w_good : wobs :=
   world (dirs ["/b/layers/d1/build/dev"; "/b/layers/d1/build/mnt"]%string) [] cfg_good ks0.
 Definition v_good : sview := mview ex_cfg w_good ex_env d1 [].
+Definition c_good : LC.case := case_of ex_cfg w_good ex_env (CMount d1).
 
 Example C01_hyps_nontrivial :
   plain_env ex_env = true
   /\ wf_table (ks_tab (wo_ks w_good)) = true
   /\ is_abs (c_layers ex_cfg) = true
-  /\ no_root_import ex_cfg (chain ex_cfg (wo_fs w_good) d1) = true
-  /\ psources_rbind ex_cfg (chain ex_cfg (wo_fs w_good) d1) = true
-  /\ rclass_beq (v_res v_good) RFail = false
+  /\ rbind_clear ex_cfg (chain ex_cfg (wo_fs w_good) d1) = true
+  /\ pre_right ex_cfg (wo_fs w_good) (chain ex_cfg (wo_fs w_good) d1) (ks_tab (wo_ks w_good)) = true
+  /\ nodup_targets ex_cfg (chain ex_cfg (wo_fs w_good) d1) = true
+  /\ nocomma_paths ex_cfg (layers_on_disk ex_cfg (wo_fs w_good)) (chain ex_cfg (wo_fs w_good) d1) = true
+  /\ ids_ok (wo_ks w_good) = true
+  /\ id_bound (wo_ks (v_after v_good)) = true
   /\ v_res v_good = ROk
   /\ length (chain ex_cfg (wo_fs w_good) d1) = 2%nat
   /\ length (mount_targets (syscalls (v_log v_good))) = 3%nat
   /\ length (syscalls (v_log v_good)) = 4%nat
   /\ lmap_beq (layers_on_disk ex_cfg (wo_fs (v_after v_good))) (layers_on_disk ex_cfg (wo_fs w_good)) = true
-  /\ C01.mount_post ex_cfg (wo_fs w_good) (layers_on_disk ex_cfg (wo_fs w_good))
-       (chain ex_cfg (wo_fs w_good) d1) (ks_tab (wo_ks (v_after v_good))) = true
   /\ C01.step_spec ex_cfg w_good v_good = true.
 Proof. vm_compute. repeat split; reflexivity. Qed.
 
-(* the additional hypotheses of C01_post_count_partial / C01_post_partial / C01_model_partial *)
-Example C01_post_hyps_nontrivial :
-  rbind_clear ex_cfg (chain ex_cfg (wo_fs w_good) d1) = true
-  /\ nostack0 ex_cfg (chain ex_cfg (wo_fs w_good) d1) (ks_tab (wo_ks w_good)) = true
-  /\ pre_right ex_cfg (wo_fs w_good) (chain ex_cfg (wo_fs w_good) d1) (ks_tab (wo_ks w_good)) = true
-  /\ nodup_targets ex_cfg (chain ex_cfg (wo_fs w_good) d1) = true
-  /\ nocomma_paths ex_cfg (layers_on_disk ex_cfg (wo_fs w_good)) (chain ex_cfg (wo_fs w_good) d1) = true
-  /\ ids_ok (wo_ks w_good) = true
-  /\ id_bound (wo_ks (v_after v_good)) = true.
+(* the same as a case: well-formed, corresponding, no known-finding class, hypotheses, spec *)
+Example C01_case_hyps_nontrivial :
+  C01.wf c_good = true /\ LC.corr c_good = true /\ C01.kf c_good = 0
+  /\ hyps_of c_good = true /\ C01.spec c_good = true.
 Proof. vm_compute. repeat split; reflexivity. Qed.
 
-(* the same hypotheses hold in a partially mounted prior state: the world after the first run
-   with the last import unmounted by hand; the second mount issues exactly one call *)
-Definition ks_of (r : kres) : kstate := match r with KOk k => k | KErr => ks0 end.
+(* a partially mounted prior state: the world after the first run with the last import
+   unmounted by hand; every hypothesis holds, the second mount issues exactly one call *)
 Definition w_part : wobs :=
   MkWO (wo_fs (v_after v_good)) (ks_of (kumount (wo_ks (v_after v_good)) (bs "/b/layers/d1/build/mnt") 0)).
 Definition v_part : sview := mview ex_cfg w_part ex_env d1 [].
+Definition c_part : LC.case := case_of ex_cfg w_part ex_env (CMount d1).
 Example C01_hyps_partial_state :
   wf_table (ks_tab (wo_ks w_part)) = true
   /\ length (ks_tab (wo_ks w_part)) = 3%nat
-  /\ no_root_import ex_cfg (chain ex_cfg (wo_fs w_part) d1) = true
-  /\ psources_rbind ex_cfg (chain ex_cfg (wo_fs w_part) d1) = true
-  /\ rbind_clear ex_cfg (chain ex_cfg (wo_fs w_part) d1) = true
-  /\ nostack0 ex_cfg (chain ex_cfg (wo_fs w_part) d1) (ks_tab (wo_ks w_part)) = true
-  /\ pre_right ex_cfg (wo_fs w_part) (chain ex_cfg (wo_fs w_part) d1) (ks_tab (wo_ks w_part)) = true
-  /\ nodup_targets ex_cfg (chain ex_cfg (wo_fs w_part) d1) = true
-  /\ nocomma_paths ex_cfg (layers_on_disk ex_cfg (wo_fs w_part)) (chain ex_cfg (wo_fs w_part) d1) = true
-  /\ ids_ok (wo_ks w_part) = true
-  /\ id_bound (wo_ks (v_after v_part)) = true
+  /\ hyps_of c_part = true
+  /\ C01.wf c_part = true /\ LC.corr c_part = true /\ C01.kf c_part = 0
   /\ v_res v_part = ROk
   /\ length (syscalls (v_log v_part)) = 1%nat
   /\ C01.step_spec ex_cfg w_part v_part = true.
 Proof. vm_compute. repeat split; reflexivity. Qed.
 
-(* ------------------------------------------------------------------ (b) refuted without "not RFail" *)
-(* the mountpoint <build>/dev does not exist: the recursive bind of /dev fails, fs.Mount
-   returns before the MS_SLAVE|MS_REC call, the log ends with an unpaired rbind *)
+Example C01_idempotent_example :
+  syscalls (v_log (mview ex_cfg (v_after v_good) ex_env d1 [])) = [].
+Proof. vm_compute. reflexivity. Qed.
+
+(* ------------------------------------------------------------------ round-1 refutations that are now accepted *)
+(* the mountpoint <build>/dev does not exist: the recursive bind of /dev fails as the last call
+   of a failed command; propagation_ok (failed_last = true) accepts the unpaired call *)
 Definition w_b1 : wobs := world (dirs ["/b/layers/d1/build/mnt"]%string) [] cfg_good ks0.
 Definition v_b1 : sview := mview ex_cfg w_b1 ex_env d1 [].
-Example C01_propagation_refuted_failed_rbind :
-  plain_env ex_env = true
-  /\ psources_rbind ex_cfg (chain ex_cfg (wo_fs w_b1) d1) = true
-  /\ v_res v_b1 = RFail
-  /\ C01.propagation_ok (syscalls (v_log v_b1)) = false
-  /\ C01.step_spec ex_cfg w_b1 v_b1 = false.
+Example C01_now_failed_rbind :
+  v_res v_b1 = RFail /\ length (syscalls (v_log v_b1)) = 2%nat
+  /\ C01.propagation_ok true (syscalls (v_log v_b1)) = true
+  /\ C01.step_spec ex_cfg w_b1 v_b1 = true.
 Proof. vm_compute. repeat split; reflexivity. Qed.
 
-(* ------------------------------------------------------------------ (b) refuted without "psources are rbind" *)
-(* `import bind /dev /dev`: fs.Mount issues the propagation call for every mount whose source
-   is /dev, /sys or /run, whatever the type; the property allows it after recursive binds only *)
+(* `import bind /dev /dev`: the slave call after a non-recursive bind of /dev is accepted *)
 Definition cfg_b2 : bytes := bs "base base0" ++ nlb ++ bs "import bind /dev /dev" ++ nlb.
 Definition w_b2 : wobs := world (dirs ["/b/layers/d1/build/dev"]%string) [] cfg_b2 ks0.
 Definition v_b2 : sview := mview ex_cfg w_b2 ex_env d1 [].
-Example C01_propagation_refuted_plain_bind :
-  plain_env ex_env = true
-  /\ psources_rbind ex_cfg (chain ex_cfg (wo_fs w_b2) d1) = false
-  /\ v_res v_b2 = ROk
-  /\ length (syscalls (v_log v_b2)) = 3%nat
-  /\ C01.propagation_ok (syscalls (v_log v_b2)) = false
-  /\ C01.step_spec ex_cfg w_b2 v_b2 = false.
+Example C01_now_plain_bind :
+  v_res v_b2 = ROk /\ length (syscalls (v_log v_b2)) = 3%nat
+  /\ C01.step_spec ex_cfg w_b2 v_b2 = true.
 Proof. vm_compute. repeat split; reflexivity. Qed.
 
-(* ------------------------------------------------------------------ (c) refuted without no_root_import *)
-(* a derived layer importing onto "/" of its build root: the overlay is mounted on <build>,
-   the mount table cached at the start of mountOne still says "<build> not mounted", so the
-   bind is stacked on the fresh overlay *)
+(* `import bind /src /` in a derived layer: the table is re-read after the overlay mount, the
+   import finds the overlay on its mountpoint (not its source) and the command fails after ONE
+   call; nothing is stacked *)
 Definition cfg_c : bytes := bs "base base0" ++ nlb ++ bs "import bind /src /" ++ nlb.
 Definition w_c : wobs := world [] [] cfg_c ks0.
 Definition v_c : sview := mview ex_cfg w_c ex_env d1 [].
-Example C01_only_needed_refuted_root_import :
-  plain_env ex_env = true
-  /\ wf_table (ks_tab (wo_ks w_c)) = true
-  /\ is_abs (c_layers ex_cfg) = true
-  /\ no_root_import ex_cfg (chain ex_cfg (wo_fs w_c) d1) = false
-  /\ mount_targets (syscalls (v_log v_c)) = [bs "/b/layers/d1/build"; bs "/b/layers/d1/build"]
-  /\ replay_calls (wo_fs (v_after v_c)) (wo_ks w_c) (syscalls (v_log v_c))
-       (Pc ex_cfg (chain ex_cfg (wo_fs w_c) d1)) = false
-  /\ C01.step_spec ex_cfg w_c v_c = false.
+Example C01_now_root_import :
+  v_res v_c = RFail
+  /\ mount_targets (syscalls (v_log v_c)) = [bs "/b/layers/d1/build"]
+  /\ C01.step_spec ex_cfg w_c v_c = true.
 Proof. vm_compute. repeat split; reflexivity. Qed.
 
-(* ------------------------------------------------------------------ (d) mount_post refuted for pre-existing mounts *)
-(* the import of the base layer is already mounted -- twice, by hand.  mount finds it mounted
-   with the expected source, issues no call and succeeds; "exactly one mount" does not hold *)
+(* the root layer's import already mounted twice by hand: no call, ROk, and the count stays
+   what it was (max 1 2 = 2); every hypothesis of the partial theorems holds *)
 Definition cfg_dbase : bytes := bs "import bind /src /mnt" ++ nlb.
 Definition fs_d : fsT := dirs ["/b/layers/base0/build/mnt"]%string.
 Definition w_d0 : wobs := world fs_d cfg_dbase (bs "base base0" ++ nlb) ks0.
@@ -153,23 +146,16 @@ Definition ks_d2 : kstate :=
   ks_of (kmount (wo_fs w_d0) ks_d1 (bs "/src") (bs "/b/layers/base0/build/mnt") (bs "bind") MS_BIND []).
 Definition w_d : wobs := world fs_d cfg_dbase (bs "base base0" ++ nlb) ks_d2.
 Definition v_d : sview := mview ex_cfg w_d ex_env (bs "base0") [].
-Example C01_post_refuted_prestacked :
-  plain_env ex_env = true
-  /\ wf_table (ks_tab (wo_ks w_d)) = true
-  /\ v_res v_d = ROk
-  /\ syscalls (v_log v_d) = []
+Example C01_now_prestacked :
+  v_res v_d = ROk /\ syscalls (v_log v_d) = []
   /\ count_at (ks_tab (wo_ks (v_after v_d))) (bs "/b/layers/base0/build/mnt") = 2%nat
-  /\ all_mounted ex_cfg (chain ex_cfg (wo_fs w_d) (bs "base0")) (ks_tab (wo_ks (v_after v_d))) = true
-  /\ C01.mount_post ex_cfg (wo_fs w_d) (layers_on_disk ex_cfg (wo_fs w_d))
-       (chain ex_cfg (wo_fs w_d) (bs "base0")) (ks_tab (wo_ks (v_after v_d))) = false
-  /\ C01.step_spec ex_cfg w_d v_d = false.
+  /\ hyps_of (case_of ex_cfg w_d ex_env (CMount (bs "base0"))) = true
+  /\ C01.step_spec ex_cfg w_d v_d = true.
 Proof. vm_compute. repeat split; reflexivity. Qed.
 
-(* ------------------------------------------------------------------ (d) mount_post refuted without rbind_clear *)
-(* from a state where nothing of the layer is mounted: `import bind /src /mnt/sub` followed
-   by `import rbind /host /mnt`, /host having a submount /host/sub (itself a bind of /src).  The
-   recursive bind copies /host/sub onto <build>/mnt/sub, on top of the first import; the
-   stacked copy has the identity the first import expects, so the run succeeds *)
+(* ------------------------------------------------------------------ known finding 1 (kf = 1) *)
+(* `import bind /src /mnt/sub` followed by `import rbind /host /mnt`, /host having a submount
+   /host/sub: the recursive bind copies it onto <build>/mnt/sub, on top of the first import *)
 Definition cfg_r : bytes :=
   bs "base base0" ++ nlb ++ bs "import bind /src /mnt/sub" ++ nlb ++ bs "import rbind /host /mnt" ++ nlb.
 Definition fs_r : fsT := dirs ["/host"; "/host/sub"; "/b/layers/d1/build/mnt"; "/b/layers/d1/build/mnt/sub"]%string.
@@ -177,24 +163,46 @@ Definition ks_r : kstate :=
   ks_of (kmount (wo_fs (world fs_r [] cfg_r ks0)) ks0 (bs "/src") (bs "/host/sub") (bs "bind") MS_BIND []).
 Definition w_r : wobs := world fs_r [] cfg_r ks_r.
 Definition v_r : sview := mview ex_cfg w_r ex_env d1 [].
-Example C01_post_refuted_rbind_copy :
-  plain_env ex_env = true
-  /\ wf_table (ks_tab (wo_ks w_r)) = true
-  /\ no_root_import ex_cfg (chain ex_cfg (wo_fs w_r) d1) = true
-  /\ nostack0 ex_cfg (chain ex_cfg (wo_fs w_r) d1) (ks_tab (wo_ks w_r)) = true
-  /\ all_mounted ex_cfg (chain ex_cfg (wo_fs w_r) d1) (ks_tab (wo_ks w_r)) = false
+Definition c_r : LC.case := case_of ex_cfg w_r ex_env (CMount d1).
+Example C01_refuted_1_witness :
+  C01.wf c_r = true /\ LC.corr c_r = true /\ C01.kf c_r = 1 /\ C01.spec c_r = false
   /\ rbind_clear ex_cfg (chain ex_cfg (wo_fs w_r) d1) = false
   /\ v_res v_r = ROk
-  /\ count_at (ks_tab (wo_ks (v_after v_r))) (bs "/b/layers/d1/build/mnt/sub") = 2%nat
-  /\ C01.step_spec ex_cfg w_r v_r = false.
+  /\ count_at (ks_tab (wo_ks (v_after v_r))) (bs "/b/layers/d1/build/mnt/sub") = 2%nat.
 Proof. vm_compute. repeat split; reflexivity. Qed.
 
-(* ------------------------------------------------------------------ (d) mount_post refuted without pre_right *)
+(* ------------------------------------------------------------------ kf = 0 is not enough: rbind ABOVE A LATER import *)
+(* `import rbind /host /mnt` followed by `import bind /other /mnt/sub`; on the host /host/sub
+   carries two stacked binds of /other.  The recursive bind copies both onto <build>/mnt/sub;
+   the later import finds its mountpoint mounted with the expected source and is skipped; ROk
+   with two mounts on a mountpoint that had none.  rbind_over_earlier does not see it (the
+   covered import comes LATER), so kf = 0, the case is well-formed and corresponds: the
+   statement `wf c -> kf c = 0 -> corr c -> spec c` is false *)
+Definition cfg_q : bytes :=
+  bs "base base0" ++ nlb ++ bs "import rbind /host /mnt" ++ nlb ++ bs "import bind /other /mnt/sub" ++ nlb.
+Definition fs_q : fsT := fs_r ++ dirs ["/other"]%string.
+Definition ks_q1 : kstate :=
+  ks_of (kmount (wo_fs (world fs_q [] cfg_q ks0)) ks0 (bs "/other") (bs "/host/sub") (bs "bind") MS_BIND []).
+Definition ks_q : kstate :=
+  ks_of (kmount (wo_fs (world fs_q [] cfg_q ks0)) ks_q1 (bs "/other") (bs "/host/sub") (bs "bind") MS_BIND []).
+Definition w_q : wobs := world fs_q [] cfg_q ks_q.
+Definition v_q : sview := mview ex_cfg w_q ex_env d1 [].
+Definition c_q : LC.case := case_of ex_cfg w_q ex_env (CMount d1).
+Example C01_holds_refuted_rbind_over_later :
+  C01.wf c_q = true /\ LC.corr c_q = true /\ C01.kf c_q = 0 /\ C01.spec c_q = false
+  /\ rbind_clear ex_cfg (chain ex_cfg (wo_fs w_q) d1) = false
+  /\ v_res v_q = ROk
+  /\ count_at (ks_tab (wo_ks w_q)) (bs "/b/layers/d1/build/mnt/sub") = 0%nat
+  /\ count_at (ks_tab (wo_ks (v_after v_q))) (bs "/b/layers/d1/build/mnt/sub") = 2%nat.
+Proof. vm_compute. repeat split; reflexivity. Qed.
+
+(* ------------------------------------------------------------------ mount_post refuted without pre_right *)
 (* a pre-existing import that layercake accepts (MountSourceIsExpected compares device and root
    against the table as it is NOW) but whose source path showed another file system WHEN the
    bind was made: a tmpfs on /old, bind /old -> <build>/mnt, later bind /old -> /s; the layer
    says `import bind /s /mnt`.  One mount on the mountpoint, no call, result ROk; the
-   specification's shows_source (covering mount of the source at attachment time) says no *)
+   specification's shows_source (covering mount of the source at attachment time) says no.
+   Also a witness against `wf c -> kf c = 0 -> corr c -> spec c` *)
 Definition cfg_s : bytes := bs "import bind /s /mnt" ++ nlb.
 Definition fs_s : fsT := dirs ["/old"; "/s"; "/b/layers/base0/build/mnt"]%string.
 Definition w_s0 : wobs := world fs_s cfg_s (bs "base base0" ++ nlb) ks0.
@@ -204,23 +212,15 @@ Definition ks_s2 : kstate :=
 Definition ks_s3 : kstate := ks_of (kmount (wo_fs w_s0) ks_s2 (bs "/old") (bs "/s") (bs "bind") MS_BIND []).
 Definition w_s : wobs := world fs_s cfg_s (bs "base base0" ++ nlb) ks_s3.
 Definition v_s : sview := mview ex_cfg w_s ex_env (bs "base0") [].
+Definition c_s : LC.case := case_of ex_cfg w_s ex_env (CMount (bs "base0")).
 Example C01_post_refuted_later_source :
-  plain_env ex_env = true
-  /\ wf_table (ks_tab (wo_ks w_s)) = true
-  /\ nostack0 ex_cfg (chain ex_cfg (wo_fs w_s) (bs "base0")) (ks_tab (wo_ks w_s)) = true
+  C01.wf c_s = true /\ LC.corr c_s = true /\ C01.kf c_s = 0 /\ C01.spec c_s = false
   /\ pre_right ex_cfg (wo_fs w_s) (chain ex_cfg (wo_fs w_s) (bs "base0")) (ks_tab (wo_ks w_s)) = false
   /\ v_res v_s = ROk
   /\ syscalls (v_log v_s) = []
   /\ count_at (ks_tab (wo_ks (v_after v_s))) (bs "/b/layers/base0/build/mnt") = 1%nat
-  /\ C01.mount_post ex_cfg (wo_fs w_s) (layers_on_disk ex_cfg (wo_fs w_s))
-       (chain ex_cfg (wo_fs w_s) (bs "base0")) (ks_tab (wo_ks (v_after v_s))) = false
   /\ C01.step_spec ex_cfg w_s v_s = false.
 Proof. vm_compute. repeat split; reflexivity. Qed.
-
-(* ------------------------------------------------------------------ idempotence on the good world *)
-Example C01_idempotent_example :
-  syscalls (v_log (mview ex_cfg (v_after v_good) ex_env d1 [])) = [].
-Proof. vm_compute. reflexivity. Qed.
 
 (* ------------------------------------------------------------------ (e) refuted without "layer definitions unchanged" *)
 (* the exports directory IS the layers directory, the package-export subdirectory is called
